@@ -1,9 +1,11 @@
 SPECIFICATION Spec
 CONSTANTS
-  MaxLines = 8
+  MaxLines = 6
   MaxLive = 3
-  UseImpl = FALSE
+  UseImpl = TRUE
   EqualKinds = FALSE
+INVARIANT ImplNeverRaises
+INVARIANT ImplIsReference
 INVARIANT NeverStuck
 INVARIANT EndsClosed
 INVARIANT SameGoverning
